@@ -73,6 +73,10 @@ Section Kalman.
   (* std.component_mul(&std) *)
   Definition vsq (n : nat) (v : vec) : vec := vtab n (fun i => sq (vget v i)).
 
+  (* (A + A.transpose()) * 0.5 *)
+  Definition msym (n : nat) (A : mat) : mat :=
+    mtab n n (fun i j => (mget A i j + mget A j i) * of_Q Ops (1 # 2)).
+
   (* motion_matrix: identity with M[(i, n + i)] = DT (DT = 1) for i in 0..n *)
   Definition motion_matrix (n : nat) : mat :=
     mtab (2 * n) (2 * n)
@@ -145,8 +149,9 @@ Section Kalman.
     let innovation := vsub n z pm in
     {| mean := vadd n2 (mean st)
                     (vtab n2 (fun j => sum n (fun i => vget innovation i * mget gain i j)));
-       cov := msub n2 n2 (cov st)
-                   (mmul n2 n n2 (mmul n2 n n (mtrans n n2 gain) pc) gain) |}.
+       (* covariance - gain^T S gain, then symmetrised: (covariance + covariance.transpose()) * 0.5 *)
+       cov := msym n2 (msub n2 n2 (cov st)
+                             (mmul n2 n n2 (mmul n2 n n (mtrans n n2 gain) pc) gain)) |}.
 
   (* The textbook update with a TRUE inverse Si of the innovation covariance S:
      K = P H^T S^-1,  mean + K y,  P - K S K^T. *)
